@@ -37,7 +37,7 @@ fn orient_name(o: Orientation) -> &'static str {
 }
 
 pub fn sweep(ctx: &Ctx) -> u64 {
-    let stride: u64 = ctx.tier.pick(64, 1);
+    let stride: u64 = ctx.tier.pick(8, 1);
     let offset: u64 = if stride > 1 { ctx.seed % stride } else { 0 };
     let pos_max = 1080.0f32.to_bits() as u64;
     let neg_max = (720.0f32.to_bits()) as u64; // magnitude bits
